@@ -2,85 +2,759 @@ import OpdaModel.Fit
 import Mathlib.Tactic
 
 /-!
-C10-T1: the positional fix-ups of the code produce the documented bucket counts **provided**
+C10-T1/T2: the positional fix-ups of the code (`ks = counts[1:]`, `ks[0] = n_lower`, `ks[-2] -= 1`,
+`ks[-1] = n_upper + 1`) produce the documented bucket counts **provided**
 (A) the lower support edge lies strictly below every other point, and
 (B) when observations are censored above, the upper limit lies strictly below the upper support edge.
+
+Route: `np.unique(…, return_counts=True)` (= `atoms` at multiplicity 1) is *the* strictly increasing list
+of the distinct points, each with its multiplicity (`unique_spec`); under A and B its first element is the
+lower edge, the next one the lower limit (if present) and its last two are the upper limit (if present) and
+the upper edge, which is where the positional fix-ups land.
 -/
 namespace Opda.Fit
 open Opda.Emp
 variable {E : Type} [LinearOrder E]
 
-/-- multiplicity-counting version of `insertAtom` facts over ℕ -/
-theorem insertAtom_head_lt (v : E) (w : Nat) (l : List (E × Nat)) (h : ∀ p ∈ l, v < p.1) :
-    insertAtom v w l = (v, w) :: l := by
-  cases l with
-  | nil => rfl
-  | cons hd tl =>
+/-! ## `np.unique` with counts -/
+
+/-- total multiplicity recorded for the value `z` -/
+def cnt (z : E) : List (E × Nat) → Nat
+  | [] => 0
+  | (u, x) :: rest => (if u = z then x else 0) + cnt z rest
+
+def StrictSorted (l : List (E × Nat)) : Prop := l.Pairwise (fun p q => p.1 < q.1)
+
+theorem insertAtomN_cases (v : E) (w : Nat) (u : E) (x : Nat) (tl : List (E × Nat)) :
+    (v < u ∧ insertAtom v w ((u, x) :: tl) = (v, w) :: (u, x) :: tl)
+    ∨ (v = u ∧ insertAtom v w ((u, x) :: tl) = (u, x + w) :: tl)
+    ∨ (u < v ∧ insertAtom v w ((u, x) :: tl) = (u, x) :: insertAtom v w tl) := by
+  rcases lt_trichotomy v u with h | h | h
+  · exact Or.inl ⟨h, by simp [insertAtom, h]⟩
+  · subst h; exact Or.inr (Or.inl ⟨rfl, by simp [insertAtom]⟩)
+  · exact Or.inr (Or.inr ⟨h, by simp [insertAtom, not_lt.mpr h.le, ne_of_gt h]⟩)
+
+theorem cnt_insertAtom (z v : E) (w : Nat) (l : List (E × Nat)) :
+    cnt z (insertAtom v w l) = (if v = z then w else 0) + cnt z l := by
+  induction l with
+  | nil => simp [insertAtom, cnt]
+  | cons hd tl ih =>
     obtain ⟨u, x⟩ := hd
-    have : v < u := h (u, x) (by simp)
-    simp [insertAtom, this]
+    rcases insertAtomN_cases v w u x tl with ⟨_, he⟩ | ⟨h, he⟩ | ⟨_, he⟩ <;> rw [he]
+    · simp [cnt]
+    · subst h; by_cases hz : v = z <;> simp [cnt, hz]; omega
+    · simp only [cnt, ih]; omega
 
-/-- multiplicity of `z` among a list of values -/
-def mult (z : E) (l : List E) : Nat := (l.filter (· = z)).length
+theorem cnt_atoms (z : E) (l : List (E × Nat)) : cnt z (atoms l) = cnt z l := by
+  induction l with
+  | nil => rfl
+  | cons hd tl ih =>
+    obtain ⟨u, x⟩ := hd
+    show cnt z (insertAtom u x (atoms tl)) = _
+    rw [cnt_insertAtom, ih]; rfl
 
-/-- invariant of the right end while the observations are inserted:
-`front ++ [(u, c), (h, 1)]` with every front value `< u < h` -/
-theorem insert_obs_tail (u h : E) (huh : u < h) (obs : List E) (hobs : ∀ y ∈ obs, y ≤ u) :
-    ∃ front : List (E × Nat), (∀ p ∈ front, p.1 < u) ∧
-      atoms ((obs ++ [u, h]).map (fun v => (v, 1))) = front ++ [(u, 1 + mult u obs), (h, 1)] := by
-  induction obs with
-  | nil =>
-    refine ⟨[], by simp, ?_⟩
-    simp [atoms, insertAtom, huh, mult]
+theorem mem_fst_insertAtom (z v : E) (w : Nat) (l : List (E × Nat)) :
+    z ∈ (insertAtom v w l).map Prod.fst ↔ z = v ∨ z ∈ l.map Prod.fst := by
+  induction l with
+  | nil => simp [insertAtom]
+  | cons hd tl ih =>
+    obtain ⟨u, x⟩ := hd
+    rcases insertAtomN_cases v w u x tl with ⟨_, he⟩ | ⟨h, he⟩ | ⟨_, he⟩ <;> rw [he]
+    · simp
+    · subst h; simp
+    · simp only [List.map_cons, List.mem_cons, ih]; tauto
+
+theorem mem_fst_atoms (z : E) (l : List (E × Nat)) : z ∈ (atoms l).map Prod.fst ↔ z ∈ l.map Prod.fst := by
+  induction l with
+  | nil => simp [atoms]
+  | cons hd tl ih =>
+    obtain ⟨u, x⟩ := hd
+    show z ∈ (insertAtom u x (atoms tl)).map Prod.fst ↔ _
+    rw [mem_fst_insertAtom, ih]; simp
+
+theorem strictSorted_insertAtom (v : E) (w : Nat) (l : List (E × Nat)) (hs : StrictSorted l) :
+    StrictSorted (insertAtom v w l) := by
+  induction l with
+  | nil => simp [insertAtom, StrictSorted]
+  | cons hd tl ih =>
+    obtain ⟨u, x⟩ := hd
+    have hs' : StrictSorted tl := (List.pairwise_cons.mp hs).2
+    have hlt : ∀ p ∈ tl, u < p.1 := (List.pairwise_cons.mp hs).1
+    rcases insertAtomN_cases v w u x tl with ⟨h, he⟩ | ⟨h, he⟩ | ⟨h, he⟩ <;> rw [he]
+    · refine List.pairwise_cons.mpr ⟨?_, hs⟩
+      intro p hp
+      rcases List.mem_cons.mp hp with rfl | hp
+      · exact h
+      · exact lt_trans h (hlt p hp)
+    · exact List.pairwise_cons.mpr ⟨hlt, hs'⟩
+    · refine List.pairwise_cons.mpr ⟨?_, ih hs'⟩
+      intro p hp
+      have : p.1 ∈ (insertAtom v w tl).map Prod.fst := List.mem_map_of_mem (f := Prod.fst) hp
+      rcases (mem_fst_insertAtom p.1 v w tl).mp this with h1 | h1
+      · simpa [h1] using h
+      · obtain ⟨q, hq, hq1⟩ := List.mem_map.mp h1
+        simpa [← hq1] using hlt q hq
+
+theorem strictSorted_atoms (l : List (E × Nat)) : StrictSorted (atoms l) := by
+  induction l with
+  | nil => simp [atoms, StrictSorted]
+  | cons hd tl ih => exact strictSorted_insertAtom hd.1 hd.2 _ ih
+
+theorem cnt_eq_zero_of_not_mem (z : E) (l : List (E × Nat)) (h : z ∉ l.map Prod.fst) : cnt z l = 0 := by
+  induction l with
+  | nil => rfl
+  | cons hd tl ih =>
+    obtain ⟨u, x⟩ := hd
+    simp only [List.map_cons, List.mem_cons, not_or] at h
+    simp [cnt, ih h.2, Ne.symm h.1]
+
+theorem cnt_of_mem_sorted (l : List (E × Nat)) (hs : StrictSorted l) (p : E × Nat) (hp : p ∈ l) :
+    cnt p.1 l = p.2 := by
+  induction l with
+  | nil => simp at hp
+  | cons hd tl ih =>
+    obtain ⟨u, x⟩ := hd
+    have hs' : StrictSorted tl := (List.pairwise_cons.mp hs).2
+    have hlt : ∀ q ∈ tl, u < q.1 := (List.pairwise_cons.mp hs).1
+    rcases List.mem_cons.mp hp with rfl | hp
+    · have : u ∉ tl.map Prod.fst := by
+        intro hm
+        obtain ⟨q, hq, hq1⟩ := List.mem_map.mp hm
+        exact absurd (hlt q hq) (by simp [hq1])
+      simp [cnt, cnt_eq_zero_of_not_mem u tl this]
+    · have hne : u ≠ p.1 := ne_of_lt (hlt p hp)
+      simp [cnt, hne, ih hs' hp]
+
+theorem cnt_points (z : E) (pts : List E) : cnt z (pts.map fun v => (v, 1)) = mult z pts := by
+  induction pts with
+  | nil => rfl
   | cons y ys ih =>
-    obtain ⟨front, hfront, hatoms⟩ := ih (fun z hz => hobs z (by simp [hz]))
-    have hy : y ≤ u := hobs y (by simp)
-    have hrec : atoms (((y :: ys) ++ [u, h]).map (fun v => (v, 1)))
-        = insertAtom y 1 (atoms ((ys ++ [u, h]).map (fun v => (v, 1)))) := rfl
-    rw [hrec, hatoms]
-    -- insert y into front ++ [(u,c),(h,1)]
-    clear hrec hatoms
-    induction front with
-    | nil =>
-      rcases lt_or_eq_of_le hy with hlt | heq
-      · refine ⟨[(y, 1)], by simpa using hlt, ?_⟩
-        have hm : mult u (y :: ys) = mult u ys := by simp [mult, ne_of_lt hlt]
-        simp [insertAtom, hlt, hm]
-      · subst heq
-        refine ⟨[], by simp, ?_⟩
-        have hm : mult y (y :: ys) = mult y ys + 1 := by simp [mult]
-        simp [insertAtom, hm]; omega
-    | cons p front' ih' =>
-      obtain ⟨pv, pc⟩ := p
-      have hpv : pv < u := hfront (pv, pc) (by simp)
-      have hfront' : ∀ q ∈ front', q.1 < u := fun q hq => hfront q (by simp [hq])
-      rcases lt_trichotomy y pv with h1 | h1 | h1
-      · refine ⟨(y, 1) :: (pv, pc) :: front', ?_, ?_⟩
-        · intro q hq
-          rcases List.mem_cons.mp hq with rfl | hq
-          · exact lt_trans h1 hpv
-          · exact hfront q hq
-        · have hm : mult u (y :: ys) = mult u ys := by
-            simp [mult, ne_of_lt (lt_trans h1 hpv)]
-          simp [insertAtom, h1, hm]
-      · subst h1
-        refine ⟨(y, pc + 1) :: front', ?_, ?_⟩
-        · intro q hq
-          rcases List.mem_cons.mp hq with rfl | hq
-          · exact hpv
-          · exact hfront' q hq
-        · have hm : mult u (y :: ys) = mult u ys := by simp [mult, ne_of_lt hpv]
-          simp [insertAtom, hm]
-      · obtain ⟨f2, hf2, he2⟩ := ih' hfront'
-        refine ⟨(pv, pc) :: f2, ?_, ?_⟩
-        · intro q hq
-          rcases List.mem_cons.mp hq with rfl | hq
-          · exact hpv
-          · exact hf2 q hq
-        · have hn1 : ¬ y < pv := not_lt.mpr h1.le
-          have hn2 : y ≠ pv := ne_of_gt h1
-          simp only [List.cons_append, insertAtom, hn1, hn2, if_false]
-          rw [he2]
+    by_cases h : y = z
+    · simp [cnt, mult, h] at ih ⊢; omega
+    · simp [cnt, mult, h] at ih ⊢; exact ih
 
-#print axioms insert_obs_tail
+/-- **`np.unique(pts, return_counts=True)`**: the values are strictly increasing, they are exactly the
+members of `pts`, and each count is the multiplicity in `pts`. -/
+theorem unique_spec (pts : List E) :
+    let U := uniqueCounts (pts.map fun v => (v, 1))
+    (U.map Prod.fst).Pairwise (· < ·) ∧ (∀ z, z ∈ U.map Prod.fst ↔ z ∈ pts) ∧
+      U.map Prod.snd = (U.map Prod.fst).map fun z => mult z pts := by
+  intro U
+  have hs : StrictSorted U := strictSorted_atoms _
+  refine ⟨?_, ?_, ?_⟩
+  · exact List.pairwise_map.mpr hs
+  · intro z
+    show z ∈ (atoms _).map Prod.fst ↔ _
+    rw [mem_fst_atoms]; simp
+  · rw [List.map_map]
+    apply List.map_congr_left
+    intro p hp
+    have := cnt_of_mem_sorted U hs p hp
+    show p.2 = mult p.1 pts
+    rw [← this]
+    show cnt p.1 (atoms _) = _
+    rw [cnt_atoms, cnt_points]
+
+/-! ## strictly increasing lists: first and last elements -/
+
+theorem sorted_head_eq {l : List E} (hs : l.Pairwise (· < ·)) {m : E} (hm : m ∈ l) (hmin : ∀ x ∈ l, m ≤ x) :
+    ∃ t, l = m :: t := by
+  cases l with
+  | nil => simp at hm
+  | cons h t =>
+    refine ⟨t, ?_⟩
+    have h1 : m ≤ h := hmin h (by simp)
+    rcases List.mem_cons.mp hm with rfl | hmt
+    · rfl
+    · have : h < m := (List.pairwise_cons.mp hs).1 m hmt
+      exact absurd (lt_of_lt_of_le this h1) (lt_irrefl _)
+
+theorem sorted_last_eq {l : List E} (hs : l.Pairwise (· < ·)) {M : E} (hM : M ∈ l) (hmax : ∀ x ∈ l, x ≤ M) :
+    ∃ t, l = t ++ [M] ∧ ∀ x ∈ t, x < M := by
+  induction l with
+  | nil => simp at hM
+  | cons h t ih =>
+    have hs' := (List.pairwise_cons.mp hs).2
+    have hlt := (List.pairwise_cons.mp hs).1
+    cases t with
+    | nil =>
+      have : M = h := by simpa using hM
+      subst this
+      exact ⟨[], by simp, by simp⟩
+    | cons h2 t2 =>
+      have hMt : M ∈ h2 :: t2 := by
+        rcases List.mem_cons.mp hM with rfl | hMt
+        · have : h2 ≤ M := hmax h2 (by simp)
+          exact absurd (lt_of_lt_of_le (hlt h2 (by simp)) this) (lt_irrefl _)
+        · exact hMt
+      obtain ⟨t', ht', hlt'⟩ := ih hs' hMt (fun x hx => hmax x (List.mem_cons_of_mem _ hx))
+      refine ⟨h :: t', by rw [ht']; rfl, ?_⟩
+      intro x hx
+      rcases List.mem_cons.mp hx with rfl | hx
+      · exact hlt M hMt
+      · exact hlt' x hx
+
+/-! ## the fix-ups on explicit shapes -/
+
+theorem fixTail?_append (v : Nat) (xs : List Nat) (x y : Nat) :
+    fixTail? v (xs ++ [x, y]) = some (xs ++ [x - 1, v]) := by
+  induction xs with
+  | nil => rfl
+  | cons a xs ih =>
+    cases xs with
+    | nil => simp [fixTail?]
+    | cons b xs' =>
+      cases xs' with
+      | nil => simp [fixTail?]
+      | cons c xs'' =>
+        have : fixTail? v (a :: b :: c :: (xs'' ++ [x, y])) =
+            (fixTail? v (b :: c :: (xs'' ++ [x, y]))).map (a :: ·) := rfl
+        simp only [List.cons_append] at ih ⊢
+        rw [this, ih]; rfl
+
+theorem fixTail?_isSome_iff (v : Nat) (l : List Nat) : (fixTail? v l).isSome ↔ 2 ≤ l.length := by
+  induction l with
+  | nil => simp [fixTail?]
+  | cons a l ih =>
+    cases l with
+    | nil => simp [fixTail?]
+    | cons b l' =>
+      cases l' with
+      | nil => simp [fixTail?]
+      | cons c l'' =>
+        have : fixTail? v (a :: b :: c :: l'') = (fixTail? v (b :: c :: l'')).map (a :: ·) := rfl
+        rw [this, Option.isSome_map, ih]; simp
+
+theorem setHead?_isSome_iff (v : Nat) (l : List Nat) : (setHead? v l).isSome ↔ 1 ≤ l.length := by
+  cases l <;> simp [setHead?]
+
+/-! ## the documented counts along a strictly increasing edge list -/
+
+section spec
+variable (ll : Option E) (obs : List E) (lu : Option E) (edgeHi : E) (nLower nUpper : Nat)
+
+/-- the part of `specCount` that does not look at the left end of the bucket -/
+def specNoPrev (z : E) : Nat :=
+  mult z obs + (if ll = some z then nLower else 0) + (if z = edgeHi then 1 else 0)
+
+theorem specCount_eq (zPrev z : E) :
+    specCount ll obs lu edgeHi nLower nUpper zPrev z
+      = specNoPrev ll obs edgeHi nLower z + (if lu = some zPrev then nUpper else 0) := by
+  unfold specCount specNoPrev; omega
+
+theorem ksSpecOpen_no_upper (zp : E) (L : List E) (h : ∀ x ∈ zp :: L, lu ≠ some x) :
+    ksSpecOpen ll obs lu edgeHi nLower nUpper (zp :: L) = L.map (specNoPrev ll obs edgeHi nLower) := by
+  induction L generalizing zp with
+  | nil => rfl
+  | cons z rest ih =>
+    show specCount ll obs lu edgeHi nLower nUpper zp z :: ksSpecOpen ll obs lu edgeHi nLower nUpper (z :: rest) = _
+    rw [ih z (fun x hx => h x (List.mem_cons_of_mem _ hx)), specCount_eq]
+    simp [h zp (by simp)]
+
+theorem ksSpecOpen_upper (u hE : E) (hlu : lu = some u) (zp : E) (xs : List E)
+    (hne : ∀ x ∈ zp :: xs, x ≠ u) :
+    ksSpecOpen ll obs lu edgeHi nLower nUpper (zp :: (xs ++ [u, hE]))
+      = (xs ++ [u]).map (specNoPrev ll obs edgeHi nLower) ++ [specNoPrev ll obs edgeHi nLower hE + nUpper] := by
+  induction xs generalizing zp with
+  | nil =>
+    show [specCount ll obs lu edgeHi nLower nUpper zp u, specCount ll obs lu edgeHi nLower nUpper u hE] = _
+    have h1 : ¬ u = zp := fun h => hne zp (by simp) h.symm
+    simp [specCount_eq, h1, hlu]
+  | cons z rest ih =>
+    show specCount ll obs lu edgeHi nLower nUpper zp z
+        :: ksSpecOpen ll obs lu edgeHi nLower nUpper (z :: (rest ++ [u, hE])) = _
+    rw [ih z (fun x hx => hne x (List.mem_cons_of_mem _ hx)), specCount_eq]
+    have h1 : lu ≠ some zp := by
+      rw [hlu]; intro h; exact hne zp (by simp) (Option.some.inj h).symm
+    simp [h1]
+
+end spec
+
+/-! ## C10-T1 -/
+
+theorem mult_cons (z y : E) (l : List E) : mult z (y :: l) = (if y = z then 1 else 0) + mult z l := by
+  by_cases h : y = z <;> simp [mult, h]; omega
+
+theorem mult_append (z : E) (l₁ l₂ : List E) : mult z (l₁ ++ l₂) = mult z l₁ + mult z l₂ := by
+  simp [mult]
+
+theorem mult_eq_zero_of_not_mem (z : E) (l : List E) (h : z ∉ l) : mult z l = 0 := by
+  simp only [mult, List.length_eq_zero_iff, List.filter_eq_nil_iff]
+  intro a ha; simpa using fun h' : a = z => h (h' ▸ ha)
+
+theorem mult_optionToList (z : E) (o : Option E) : mult z o.toList = if o = some z then 1 else 0 := by
+  cases o with
+  | none => simp [mult]
+  | some x => by_cases h : x = z <;> simp [mult, h]
+
+/-- the data facts the censoring step guarantees (`lo < y ≤ hi` for the observed `y`, `lo < hi`), plus
+the side conditions (A) and (B) -/
+structure BucketHyps (edgeLo : E) (ll : Option E) (obs : List E) (lu : Option E) (edgeHi : E) : Prop where
+  /-- (A) the lower support edge lies strictly below every other point -/
+  sideA : ∀ p ∈ ll.toList ++ obs ++ lu.toList ++ [edgeHi], edgeLo < p
+  /-- (B) the upper limit lies strictly below the upper support edge -/
+  sideB : ∀ u, lu = some u → u < edgeHi
+  obs_gt_ll : ∀ l, ll = some l → ∀ y ∈ obs, l < y
+  obs_le_lu : ∀ u, lu = some u → ∀ y ∈ obs, y ≤ u
+  ll_lt_lu : ∀ l u, ll = some l → lu = some u → l < u
+  ll_lt_hi : ∀ l, ll = some l → l < edgeHi
+  obs_le_hi : ∀ y ∈ obs, y ≤ edgeHi
+
+theorem sideA_sideB_of_hyps {edgeLo : E} {ll : Option E} {obs : List E} {lu : Option E} {edgeHi : E}
+    (h : BucketHyps edgeLo ll obs lu edgeHi) :
+    sideA edgeLo ll obs lu edgeHi = true ∧ sideB lu edgeHi = true := by
+  constructor
+  · simp only [sideA, List.all_eq_true, decide_eq_true_eq]
+    exact h.sideA
+  · cases hlu : lu with
+    | none => rfl
+    | some u => simpa [sideB] using h.sideB u hlu
+
+/-- the count `np.unique` records for a point other than the lower edge -/
+def rawCount (ll : Option E) (obs : List E) (lu : Option E) (edgeHi : E) (z : E) : Nat :=
+  (if ll = some z then 1 else 0) + mult z obs + (if lu = some z then 1 else 0) + (if z = edgeHi then 1 else 0)
+
+/-- what (A) and the data facts give before any fix-up: the edge list is `edgeLo :: zs'`, `zs'` is the
+strictly increasing list of the other points, `counts[1:]` are their multiplicities, the upper edge is the
+largest point, and the closed left-most bucket adds nothing. -/
+theorem bucket_prefix (edgeLo : E) (ll : Option E) (obs : List E) (lu : Option E)
+    (edgeHi : E) (nLower nUpper : Nat) (H : BucketHyps edgeLo ll obs lu edgeHi) :
+    ∃ zs' : List E, zsModel edgeLo ll obs lu edgeHi = edgeLo :: zs' ∧ zs'.Pairwise (· < ·) ∧
+      (∀ x ∈ zs', edgeLo < x) ∧ (∀ z, z ∈ zs' ↔ z ∈ ll.toList ++ obs ++ lu.toList ++ [edgeHi]) ∧
+      ((uniqueCounts (points edgeLo ll obs lu edgeHi)).map Prod.snd).tail = zs'.map (rawCount ll obs lu edgeHi) ∧
+      (∀ closedLeft, ksSpec closedLeft ll obs lu edgeHi nLower nUpper (edgeLo :: zs')
+        = ksSpecOpen ll obs lu edgeHi nLower nUpper (edgeLo :: zs')) ∧
+      edgeHi ∈ zs' ∧ (∀ x ∈ zs', x ≤ edgeHi) := by
+  set R : List E := ll.toList ++ obs ++ lu.toList ++ [edgeHi] with hR
+  have hpts : pointValues edgeLo ll obs lu edgeHi = edgeLo :: R := rfl
+  obtain ⟨hsorted, hmem, hcounts⟩ := unique_spec (pointValues edgeLo ll obs lu edgeHi)
+  set U := uniqueCounts ((pointValues edgeLo ll obs lu edgeHi).map fun v => (v, 1)) with hU
+  set zs := U.map Prod.fst with hzs
+  have hmin : ∀ x ∈ zs, edgeLo ≤ x := by
+    intro x hx
+    have hx' : x ∈ edgeLo :: R := hpts ▸ (hmem x).mp hx
+    rcases List.mem_cons.mp hx' with rfl | hx
+    · exact le_refl _
+    · exact le_of_lt (H.sideA x hx)
+  obtain ⟨zs', hzs'⟩ := sorted_head_eq hsorted ((hmem edgeLo).mpr (by rw [hpts]; simp)) hmin
+  have hsorted' : zs'.Pairwise (· < ·) := by rw [hzs'] at hsorted; exact (List.pairwise_cons.mp hsorted).2
+  have hlo_lt : ∀ x ∈ zs', edgeLo < x := by rw [hzs'] at hsorted; exact (List.pairwise_cons.mp hsorted).1
+  have hmem' : ∀ z, z ∈ zs' ↔ z ∈ R := by
+    intro z
+    constructor
+    · intro hz
+      have : z ∈ edgeLo :: R := hpts ▸ (hmem z).mp (by rw [hzs']; exact List.mem_cons_of_mem _ hz)
+      rcases List.mem_cons.mp this with rfl | h
+      · exact absurd (hlo_lt _ hz) (lt_irrefl _)
+      · exact h
+    · intro hz
+      have : z ∈ zs := (hmem z).mpr (by rw [hpts]; exact List.mem_cons_of_mem _ hz)
+      rw [hzs'] at this
+      rcases List.mem_cons.mp this with rfl | h
+      · exact absurd (H.sideA _ hz) (lt_irrefl _)
+      · exact h
+  refine ⟨zs', hzs', hsorted', hlo_lt, hmem', ?_, ?_, ?_, ?_⟩
+  · have : (U.map Prod.snd).tail = zs'.map fun z => mult z (pointValues edgeLo ll obs lu edgeHi) := by
+      rw [hcounts, hzs']; rfl
+    show (U.map Prod.snd).tail = _
+    rw [this]
+    apply List.map_congr_left
+    intro z hz
+    have hne : edgeLo ≠ z := ne_of_lt (hlo_lt z hz)
+    rw [hpts, mult_cons, hR, mult_append, mult_append, mult_append, mult_optionToList, mult_optionToList]
+    have : mult z [edgeHi] = if z = edgeHi then 1 else 0 := by
+      by_cases h : edgeHi = z
+      · subst h; simp [mult]
+      · have h' : ¬ z = edgeHi := fun h'' => h h''.symm
+        simp [mult, h, h']
+    rw [this]; simp [hne, rawCount]
+  · intro closedLeft
+    have hex : closedExtra obs edgeLo = 0 := by
+      apply mult_eq_zero_of_not_mem
+      intro hm
+      exact absurd (H.sideA edgeLo (by simp [hm])) (lt_irrefl _)
+    cases closedLeft with
+    | false => rfl
+    | true =>
+      show addHead (closedExtra obs edgeLo) _ = _
+      rw [hex]
+      cases ksSpecOpen ll obs lu edgeHi nLower nUpper (edgeLo :: zs') <;> simp [addHead]
+  · exact (hmem' edgeHi).mpr (by simp [hR])
+  · intro x hx
+    have := (hmem' x).mp hx
+    simp only [hR, List.mem_append, Option.mem_toList, List.mem_singleton] at this
+    rcases this with ((h | h) | h) | h
+    · exact le_of_lt (H.ll_lt_hi x h)
+    · exact H.obs_le_hi x h
+    · exact le_of_lt (H.sideB x h)
+    · exact le_of_eq h
+
+/-- with right-censored observations (and (B)) the edge list ends with the upper limit and the upper
+edge: `zs' = pre ++ xs ++ [u, edgeHi]` where `pre` is the lower limit if present -/
+theorem tail_shape {L : List E} (hs : L.Pairwise (· < ·)) {u hE : E} (hu : u ∈ L) (hh : hE ∈ L) (huh : u < hE)
+    (hmax : ∀ x ∈ L, x ≤ hE) (hmax' : ∀ x ∈ L, x ≠ hE → x ≤ u) :
+    ∃ xs, L = xs ++ [u, hE] ∧ ∀ x ∈ xs, x < u := by
+  obtain ⟨t1, ht1, hlt1⟩ := sorted_last_eq hs hh hmax
+  have hu1 : u ∈ t1 := by
+    rw [ht1] at hu
+    rcases List.mem_append.mp hu with h | h
+    · exact h
+    · exact absurd huh (by simp at h; simp [h])
+  have hs1 : t1.Pairwise (· < ·) := by rw [ht1] at hs; exact (List.pairwise_append.mp hs).1
+  have hmax1 : ∀ x ∈ t1, x ≤ u := fun x hx =>
+    hmax' x (by rw [ht1]; simp [hx]) (ne_of_lt (hlt1 x hx))
+  obtain ⟨xs, hxs, hltx⟩ := sorted_last_eq hs1 hu1 hmax1
+  exact ⟨xs, by rw [ht1, hxs]; simp, hltx⟩
+
+/-- **C10-T1.** Under the side conditions (A) and (B) the code's positional fix-ups never index out of
+range and produce exactly the documented bucket counts along the edges `zs` (whether or not the left-most
+bucket is closed: under (A) no observation sits on the lower edge). -/
+theorem buckets_model_eq_spec (closedLeft : Bool) (edgeLo : E) (ll : Option E) (obs : List E) (lu : Option E)
+    (edgeHi : E) (nLower nUpper : Nat) (H : BucketHyps edgeLo ll obs lu edgeHi) :
+    ksModel? edgeLo ll obs lu edgeHi nLower nUpper
+      = some (ksSpec closedLeft ll obs lu edgeHi nLower nUpper (zsModel edgeLo ll obs lu edgeHi)) := by
+  rcases ll with _ | l <;> rcases lu with _ | u
+  · -- no limits: every count is already the documented one
+    obtain ⟨zs', hz, _, _, _, hks, hcl, _, _⟩ := bucket_prefix edgeLo none obs none edgeHi nLower nUpper H
+    simp only [ksModel?]
+    rw [hz, hcl, hks]
+    simp only [Option.isSome_none, Bool.false_eq_true, if_false, Option.bind_some]
+    rw [ksSpecOpen_no_upper _ _ _ _ _ _ _ _ (by simp)]
+    congr 1
+    apply List.map_congr_left
+    intro z _
+    simp [specNoPrev, rawCount]
+  · -- right-censored only
+    obtain ⟨zs', hz, hs, hlo, hmem, hks, hcl, hhi, hmax⟩ :=
+      bucket_prefix edgeLo none obs (some u) edgeHi nLower nUpper H
+    have huh : u < edgeHi := H.sideB u rfl
+    obtain ⟨xs, hshape, hltx⟩ := tail_shape hs ((hmem u).mpr (by simp)) hhi huh hmax (by
+      intro x hx hne
+      have := (hmem x).mp hx
+      simp only [Option.toList_none, Option.toList_some, List.nil_append, List.mem_append, List.mem_singleton] at this
+      rcases this with (h | h) | h
+      · exact H.obs_le_lu u rfl x h
+      · exact le_of_eq h
+      · exact absurd h hne)
+    have hhi_obs : mult edgeHi obs = 0 := by
+      apply mult_eq_zero_of_not_mem
+      intro hm
+      exact absurd (lt_of_le_of_lt (H.obs_le_lu u rfl _ hm) huh) (lt_irrefl _)
+    simp only [ksModel?]
+    rw [hz, hcl, hks, hshape]
+    simp only [Option.isSome_none, Option.isSome_some, Bool.false_eq_true, if_false, if_true, Option.bind_some]
+    rw [List.map_append, List.map_cons, List.map_cons, List.map_nil, fixTail?_append]
+    rw [ksSpecOpen_upper none obs (some u) edgeHi nLower nUpper u edgeHi rfl edgeLo xs (by
+      intro x hx
+      rcases List.mem_cons.mp hx with rfl | hx
+      · exact ne_of_lt (hlo u (by rw [hshape]; simp))
+      · exact ne_of_lt (hltx x hx))]
+    simp only [List.map_append, List.map_cons, List.map_nil, List.append_assoc, List.cons_append,
+      List.nil_append]
+    congr 2
+    · apply List.map_congr_left
+      intro z hz'
+      have hzu : z ≠ u := ne_of_lt (hltx z hz')
+      have hzh : z ≠ edgeHi := ne_of_lt (lt_trans (hltx z hz') huh)
+      simp [specNoPrev, rawCount, hzu.symm, hzh]
+    · have e1 : rawCount none obs (some u) edgeHi u - 1 = specNoPrev none obs edgeHi nLower u := by
+        simp [specNoPrev, rawCount, ne_of_lt huh]
+      have e2 : nUpper + 1 = specNoPrev none obs edgeHi nLower edgeHi + nUpper := by
+        simp [specNoPrev, hhi_obs]; omega
+      rw [e1, e2]
+  · -- left-censored only
+    obtain ⟨zs', hz, hs, hlo, hmem, hks, hcl, hhi, hmax⟩ :=
+      bucket_prefix edgeLo (some l) obs none edgeHi nLower nUpper H
+    have hl_mem : l ∈ zs' := (hmem l).mpr (by simp)
+    have hminl : ∀ x ∈ zs', l ≤ x := by
+      intro x hx
+      have := (hmem x).mp hx
+      simp only [Option.toList_none, Option.toList_some, List.append_nil, List.mem_append, List.mem_singleton,
+        List.mem_cons, List.not_mem_nil, or_false] at this
+      rcases this with (h | h) | h
+      · exact le_of_eq h.symm
+      · exact le_of_lt (H.obs_gt_ll l rfl x h)
+      · exact h ▸ le_of_lt (H.ll_lt_hi l rfl)
+    obtain ⟨L2, hL2⟩ := sorted_head_eq hs hl_mem hminl
+    have hl_lt : ∀ x ∈ L2, l < x := by rw [hL2] at hs; exact (List.pairwise_cons.mp hs).1
+    have hl_obs : mult l obs = 0 := by
+      apply mult_eq_zero_of_not_mem
+      intro hm
+      exact absurd (H.obs_gt_ll l rfl l hm) (lt_irrefl _)
+    have hl_ne_hi : l ≠ edgeHi := ne_of_lt (H.ll_lt_hi l rfl)
+    simp only [ksModel?]
+    rw [hz, hcl, hks, hL2]
+    simp only [Option.isSome_none, Option.isSome_some, Bool.false_eq_true, if_false, if_true,
+      List.map_cons, setHead?, Option.bind_some]
+    rw [ksSpecOpen_no_upper _ _ _ _ _ _ _ _ (by simp)]
+    rw [List.map_cons]
+    congr 1
+    congr 1
+    · simp [specNoPrev, hl_obs, hl_ne_hi]
+    · apply List.map_congr_left
+      intro z hz'
+      have hzl : z ≠ l := ne_of_gt (hl_lt z hz')
+      simp [specNoPrev, rawCount, hzl.symm]
+  · -- censored on both sides
+    obtain ⟨zs', hz, hs, hlo, hmem, hks, hcl, hhi, hmax⟩ :=
+      bucket_prefix edgeLo (some l) obs (some u) edgeHi nLower nUpper H
+    have huh : u < edgeHi := H.sideB u rfl
+    have hlu' : l < u := H.ll_lt_lu l u rfl rfl
+    have hl_mem : l ∈ zs' := (hmem l).mpr (by simp)
+    have hminl : ∀ x ∈ zs', l ≤ x := by
+      intro x hx
+      have := (hmem x).mp hx
+      simp only [Option.toList_some, List.mem_append, List.mem_singleton,
+        List.mem_cons, List.not_mem_nil, or_false] at this
+      rcases this with ((h | h) | h) | h
+      · exact le_of_eq h.symm
+      · exact le_of_lt (H.obs_gt_ll l rfl x h)
+      · exact h ▸ le_of_lt hlu'
+      · exact h ▸ le_of_lt (H.ll_lt_hi l rfl)
+    obtain ⟨L2, hL2⟩ := sorted_head_eq hs hl_mem hminl
+    have hsL2 : L2.Pairwise (· < ·) := by rw [hL2] at hs; exact (List.pairwise_cons.mp hs).2
+    have hl_lt : ∀ x ∈ L2, l < x := by rw [hL2] at hs; exact (List.pairwise_cons.mp hs).1
+    have hl_obs : mult l obs = 0 := by
+      apply mult_eq_zero_of_not_mem
+      intro hm
+      exact absurd (H.obs_gt_ll l rfl l hm) (lt_irrefl _)
+    have hl_ne_hi : l ≠ edgeHi := ne_of_lt (H.ll_lt_hi l rfl)
+    have hmemL2 : ∀ x, x ∈ L2 → x ∈ zs' := fun x hx => by rw [hL2]; simp [hx]
+    have hu2 : u ∈ L2 := by
+      have : u ∈ zs' := (hmem u).mpr (by simp)
+      rw [hL2] at this
+      rcases List.mem_cons.mp this with h | h
+      · exact absurd h (ne_of_gt hlu')
+      · exact h
+    have hh2 : edgeHi ∈ L2 := by
+      rw [hL2] at hhi
+      rcases List.mem_cons.mp hhi with h | h
+      · exact absurd h.symm hl_ne_hi
+      · exact h
+    obtain ⟨xs, hshape, hltx⟩ := tail_shape hsL2 hu2 hh2 huh (fun x hx => hmax x (hmemL2 x hx)) (by
+      intro x hx hne
+      have := (hmem x).mp (hmemL2 x hx)
+      simp only [Option.toList_some, List.mem_append, List.mem_singleton,
+        List.mem_cons, List.not_mem_nil, or_false] at this
+      rcases this with ((h | h) | h) | h
+      · exact absurd (hl_lt x hx) (by simp [h])
+      · exact H.obs_le_lu u rfl x h
+      · exact le_of_eq h
+      · exact absurd h hne)
+    have hhi_obs : mult edgeHi obs = 0 := by
+      apply mult_eq_zero_of_not_mem
+      intro hm
+      exact absurd (lt_of_le_of_lt (H.obs_le_lu u rfl _ hm) huh) (lt_irrefl _)
+    simp only [ksModel?]
+    rw [hz, hcl, hks, hL2, hshape]
+    simp only [Option.isSome_some, if_true, List.map_cons, setHead?, Option.bind_some]
+    rw [List.map_append, List.map_cons, List.map_cons, List.map_nil, ← List.cons_append, fixTail?_append]
+    have hne : ∀ x ∈ edgeLo :: (l :: xs), x ≠ u := by
+      intro x hx
+      rcases List.mem_cons.mp hx with rfl | hx
+      · exact ne_of_lt (hlo u (hmemL2 u hu2))
+      · rcases List.mem_cons.mp hx with rfl | hx
+        · exact ne_of_lt hlu'
+        · exact ne_of_lt (hltx x hx)
+    rw [← List.cons_append, ksSpecOpen_upper (some l) obs (some u) edgeHi nLower nUpper u edgeHi rfl edgeLo (l :: xs) hne]
+    simp only [List.map_append, List.map_cons, List.map_nil, List.append_assoc, List.cons_append,
+      List.nil_append]
+    have e0 : nLower = specNoPrev (some l) obs edgeHi nLower l := by
+      simp [specNoPrev, hl_obs, hl_ne_hi]
+    have e1 : rawCount (some l) obs (some u) edgeHi u - 1 = specNoPrev (some l) obs edgeHi nLower u := by
+      simp [specNoPrev, rawCount, ne_of_lt huh, ne_of_lt hlu']
+    have e2 : nUpper + 1 = specNoPrev (some l) obs edgeHi nLower edgeHi + nUpper := by
+      simp [specNoPrev, hhi_obs, hl_ne_hi]; omega
+    rw [e1, e2, ← e0]
+    congr 3
+    apply List.map_congr_left
+    intro z hz'
+    have hz2 : z ∈ L2 := by rw [hshape]; simp [hz']
+    have hzl : z ≠ l := ne_of_gt (hl_lt z hz2)
+    have hzu : z ≠ u := ne_of_lt (hltx z hz')
+    have hzh : z ≠ edgeHi := ne_of_lt (lt_trans (hltx z hz') huh)
+    simp [specNoPrev, rawCount, hzl.symm, hzu.symm, hzh]
+
+/-! ## C10-T2: the counts sum to `n + 1` -/
+
+theorem sumNat_eq_sum (l : List Nat) : sumNat l = l.sum := by
+  induction l with
+  | nil => rfl
+  | cons x xs ih => simp [sumNat, ih]
+
+theorem sum_map_ite_eq (Z : List E) (hn : Z.Nodup) (a : E) (c : Nat) :
+    (Z.map fun z => if z = a then c else 0).sum = if a ∈ Z then c else 0 := by
+  induction Z with
+  | nil => simp
+  | cons z Z ih =>
+    have hn' := (List.nodup_cons.mp hn)
+    rw [List.map_cons, List.sum_cons, ih hn'.2]
+    by_cases h : z = a
+    · subst h; simp [hn'.1]
+    · have : ¬ a = z := fun h' => h h'.symm
+      simp [h, this]
+
+theorem sum_map_mult (Z : List E) (hn : Z.Nodup) (obs : List E) (h : ∀ y ∈ obs, y ∈ Z) :
+    (Z.map fun z => mult z obs).sum = obs.length := by
+  induction obs with
+  | nil => simp [mult]
+  | cons y ys ih =>
+    have e : (fun z => mult z (y :: ys)) = fun z => (if z = y then 1 else 0) + mult z ys := by
+      funext z; rw [mult_cons]; by_cases h' : y = z
+      · subst h'; simp
+      · have : ¬ z = y := fun h'' => h' h''.symm
+        simp [h', this]
+    rw [e, List.sum_map_add, sum_map_ite_eq Z hn y 1, ih (fun y' hy' => h y' (List.mem_cons_of_mem _ hy'))]
+    simp [h y (by simp)]; omega
+
+/-- the right-censored counts along an edge list: `n_upper` for every bucket that starts at the upper limit -/
+def sumUpper (lu : Option E) (nUpper : Nat) : List E → Nat
+  | [] => 0
+  | [_] => 0
+  | zp :: z :: rest => (if lu = some zp then nUpper else 0) + sumUpper lu nUpper (z :: rest)
+
+theorem sum_ksSpecOpen (ll : Option E) (obs : List E) (lu : Option E) (edgeHi : E) (nLower nUpper : Nat)
+    (l : List E) :
+    (ksSpecOpen ll obs lu edgeHi nLower nUpper l).sum
+      = (l.tail.map (specNoPrev ll obs edgeHi nLower)).sum + sumUpper lu nUpper l := by
+  induction l with
+  | nil => rfl
+  | cons zp l ih =>
+    cases l with
+    | nil => rfl
+    | cons z rest =>
+      show (specCount ll obs lu edgeHi nLower nUpper zp z
+          :: ksSpecOpen ll obs lu edgeHi nLower nUpper (z :: rest)).sum = _
+      rw [List.sum_cons, ih, specCount_eq]
+      simp [sumUpper]; omega
+
+theorem sumUpper_of_not_mem (u : E) (nUpper : Nat) (l : List E) (h : u ∉ l) : sumUpper (some u) nUpper l = 0 := by
+  induction l with
+  | nil => rfl
+  | cons zp l ih =>
+    cases l with
+    | nil => rfl
+    | cons z rest =>
+      simp only [List.mem_cons, not_or] at h
+      have : ¬ u = zp := h.1
+      simp only [sumUpper, Option.some.injEq, this, if_false, Nat.zero_add]
+      exact ih (by simp [h.2.1, h.2.2])
+
+theorem sumUpper_of_mem (u : E) (nUpper : Nat) (l : List E) (hs : l.Pairwise (· < ·)) (hu : u ∈ l)
+    (hnl : ∃ y ∈ l, u < y) : sumUpper (some u) nUpper l = nUpper := by
+  induction l with
+  | nil => simp at hu
+  | cons zp l ih =>
+    have hlt := (List.pairwise_cons.mp hs).1
+    have hs' := (List.pairwise_cons.mp hs).2
+    cases l with
+    | nil =>
+      obtain ⟨y, hy, huy⟩ := hnl
+      simp at hu hy; subst hu hy; exact absurd huy (lt_irrefl _)
+    | cons z rest =>
+      by_cases h : u = zp
+      · subst h
+        have : u ∉ z :: rest := fun hm => absurd (hlt u hm) (lt_irrefl _)
+        simp [sumUpper, sumUpper_of_not_mem u nUpper _ this]
+      · have hu' : u ∈ z :: rest := by
+          rcases List.mem_cons.mp hu with h' | h'
+          · exact absurd h' h
+          · exact h'
+        have hnl' : ∃ y ∈ z :: rest, u < y := by
+          obtain ⟨y, hy, huy⟩ := hnl
+          rcases List.mem_cons.mp hy with rfl | hy
+          · exact absurd (lt_trans huy (hlt u hu')) (lt_irrefl _)
+          · exact ⟨y, hy, huy⟩
+        simp only [sumUpper, Option.some.injEq, h, if_false, Nat.zero_add]
+        exact ih hs' hu' hnl'
+
+/-- **C10-T2.** Under (A) and (B) the model's counts sum to `n_lower + #observed + n_upper + 1 = n + 1`
+(the censored counts enter only when the corresponding limit point is present, i.e. when they are
+positive). -/
+theorem sum_ks_eq (edgeLo : E) (ll : Option E) (obs : List E) (lu : Option E)
+    (edgeHi : E) (nLower nUpper : Nat) (H : BucketHyps edgeLo ll obs lu edgeHi) :
+    ∃ ks, ksModel? edgeLo ll obs lu edgeHi nLower nUpper = some ks ∧
+      sumNat ks = (if ll.isSome then nLower else 0) + obs.length + (if lu.isSome then nUpper else 0) + 1 := by
+  refine ⟨_, buckets_model_eq_spec false edgeLo ll obs lu edgeHi nLower nUpper H, ?_⟩
+  obtain ⟨zs', hz, hs, hlo, hmem, _, _, hhi, hmax⟩ := bucket_prefix edgeLo ll obs lu edgeHi nLower nUpper H
+  have hnodup : zs'.Nodup := hs.imp (fun h => ne_of_lt h)
+  have hsfull : (edgeLo :: zs').Pairwise (· < ·) := List.pairwise_cons.mpr ⟨hlo, hs⟩
+  rw [hz, sumNat_eq_sum]
+  show (ksSpecOpen ll obs lu edgeHi nLower nUpper (edgeLo :: zs')).sum = _
+  rw [sum_ksSpecOpen, List.tail_cons]
+  have hfun : specNoPrev ll obs edgeHi nLower
+      = fun z => mult z obs + ((if ll = some z then nLower else 0) + (if z = edgeHi then 1 else 0)) := by
+    funext z; unfold specNoPrev; omega
+  rw [hfun, List.sum_map_add, List.sum_map_add, sum_map_mult zs' hnodup obs (fun y hy => (hmem y).mpr (by simp [hy])),
+    sum_map_ite_eq zs' hnodup edgeHi 1]
+  have hl : (zs'.map fun z => if ll = some z then nLower else 0).sum = if ll.isSome then nLower else 0 := by
+    cases hll : ll with
+    | none => simp
+    | some l =>
+      have : (fun z => if some l = some z then nLower else 0) = fun z => if z = l then nLower else 0 := by
+        funext z; by_cases h : z = l
+        · subst h; simp
+        · have : ¬ l = z := fun h' => h h'.symm
+          simp [h, this]
+      rw [this, sum_map_ite_eq zs' hnodup l nLower]
+      simp [(hmem l).mpr (by simp [hll])]
+  have hu : sumUpper lu nUpper (edgeLo :: zs') = if lu.isSome then nUpper else 0 := by
+    cases hlu : lu with
+    | none =>
+      have : ∀ l : List E, sumUpper none nUpper l = 0 := by
+        intro l
+        induction l with
+        | nil => rfl
+        | cons a l ih => cases l with
+          | nil => rfl
+          | cons b r => simp [sumUpper, ih]
+      simp [this]
+    | some u =>
+      have hum : u ∈ zs' := (hmem u).mpr (by simp [hlu])
+      rw [sumUpper_of_mem u nUpper _ hsfull (List.mem_cons_of_mem _ hum)
+        ⟨edgeHi, List.mem_cons_of_mem _ hhi, H.sideB u hlu⟩]
+      simp
+  rw [hl, hu]
+  simp [hhi]; omega
+
+/-! ## C11-T4 / finding F2: when the positional fix-ups index out of range -/
+
+/-- `ks[0] = …` / `ks[-2] -= 1` raise `IndexError` exactly when the count array after `ks[1:]` is too
+short: no entry with left-censored observations, or fewer than two entries (= fewer than two buckets)
+with right-censored observations. -/
+theorem ksModel?_isSome_iff (edgeLo : E) (ll : Option E) (obs : List E) (lu : Option E) (edgeHi : E)
+    (nLower nUpper : Nat) :
+    (ksModel? edgeLo ll obs lu edgeHi nLower nUpper).isSome ↔
+      (ll.isSome → 2 ≤ (zsModel edgeLo ll obs lu edgeHi).length) ∧
+      (lu.isSome → 3 ≤ (zsModel edgeLo ll obs lu edgeHi).length) := by
+  simp only [ksModel?, zsModel]
+  set U := uniqueCounts (points edgeLo ll obs lu edgeHi)
+  have hlen : (U.map Prod.snd).tail.length = (U.map Prod.fst).length - 1 := by simp
+  generalize (U.map Prod.snd).tail = ks at hlen
+  generalize (U.map Prod.fst).length = m at hlen
+  cases ll with
+  | none =>
+    cases lu with
+    | none => simp
+    | some u =>
+      simp only [Option.isSome_none, Option.isSome_some, Bool.false_eq_true, if_false, if_true, Option.bind_some,
+        fixTail?_isSome_iff, false_imp_iff, true_imp_iff, true_and]
+      omega
+  | some l =>
+    cases ks with
+    | nil =>
+      simp only [Option.isSome_some, if_true, setHead?, Option.bind_none, Option.isSome_none, true_imp_iff]
+      simp at hlen
+      constructor
+      · intro h; exact absurd h (by simp)
+      · intro h; omega
+    | cons k ks' =>
+      simp only [Option.isSome_some, if_true, setHead?, Option.bind_some, true_imp_iff]
+      simp at hlen
+      cases lu with
+      | none => simp; omega
+      | some u =>
+        simp only [Option.isSome_some, if_true, fixTail?_isSome_iff, true_imp_iff, List.length_cons]
+        omega
+
 end Opda.Fit
